@@ -162,7 +162,7 @@ pub fn state_key(sys: &System, parts: &KeyParts, monitor_hash: u64) -> u128 {
                 match op {
                     PendingJournalOp::Flush(_, at) => (0u8, *at).hash(h),
                     PendingJournalOp::Prune { at, .. } => (1u8, *at).hash(h),
-                    PendingJournalOp::Replay => 2u8.hash(h),
+                    PendingJournalOp::Replay(_, at) => (2u8, *at).hash(h),
                 }
             }
             if sys.sc.journal {
